@@ -6,6 +6,7 @@ package wiregen
 
 import (
 	"encoding/binary"
+	"reflect"
 	"time"
 
 	p9p "github.com/frobnitzem/go-p9p"
@@ -31,6 +32,11 @@ func fdir(d p9p.Dir) sx.S { return sx.L(sx.Sym("dir"), sx.List(DirFields(d))) }
 // MessageFields lists a message's fields in struct order, as sexps; ok=false for an unknown message type.
 func MessageFields(m p9p.Message) (out []sx.S, ok bool) {
 	ok = true
+	if rv := reflect.ValueOf(m); rv.IsValid() && rv.Kind() == reflect.Ptr && !rv.IsNil() {
+		if pm, isMsg := rv.Elem().Interface().(p9p.Message); isMsg {
+			m = pm // pointer form: same fields
+		}
+	}
 	switch v := m.(type) {
 	case p9p.MessageTversion:
 		out = []sx.S{fi(4, uint64(v.MSize)), fs(v.Version)}
@@ -141,6 +147,13 @@ func RefStat(d p9p.Dir) []byte {
 
 // RefEncode is type[1] tag[2] body, i.e. the frame without the channel's size[4]. ok=false for unknown messages.
 func RefEncode(fc *p9p.Fcall) ([]byte, bool) {
+	if rv := reflect.ValueOf(fc.Message); rv.IsValid() && rv.Kind() == reflect.Ptr && !rv.IsNil() {
+		if pm, isMsg := rv.Elem().Interface().(p9p.Message); isMsg {
+			c := *fc
+			c.Message = pm
+			fc = &c
+		}
+	}
 	var w buf
 	w.u8(uint8(fc.Type))
 	w.u16(uint16(fc.Tag))
@@ -398,4 +411,12 @@ func GenMessage(r *prng.R, t p9p.FcallType, maxData int) p9p.Message {
 func GenFcall(r *prng.R, t p9p.FcallType, maxData int) *p9p.Fcall {
 	m := GenMessage(r, t, maxData)
 	return &p9p.Fcall{Type: m.Type(), Tag: p9p.Tag(GenU16(r)), Message: m}
+}
+
+// Pointer returns the same message in pointer form (&MessageXxx{...}): the message structs have value
+// receivers, so both forms implement p9p.Message and the codec lists both in its type switches.
+func Pointer(m p9p.Message) p9p.Message {
+	v := reflect.New(reflect.TypeOf(m))
+	v.Elem().Set(reflect.ValueOf(m))
+	return v.Interface().(p9p.Message)
 }
